@@ -1059,7 +1059,9 @@ def run(tier, only=None):
             n8 += 1
             key = "bounded-copy:%s:%s:%s" % (st["unit"], st["func"], st["dst"])
             where = "%s:%d (%s)" % (st["unit"], st["line"], st["func"])
-            if st["ub"] is not None and st["ub"] < st["bound"]:
+            # a string copy is followed by its terminator (length < size); a memory copy of exactly the array's size fits
+            fits = st["ub"] is not None and (st["ub"] < st["bound"] or (st["callee"].startswith("mem") and st["ub"] == st["bound"]))
+            if fits:
                 rep.ok("K8", key, sample={"site": where, "copy": "%s(%s, ..., %s)" % (st["callee"], st["dst"], st["len"]), "length<=": st["ub"], "array": st["bound"]})
             else:
                 rep.violation("K8", key, where,
